@@ -100,7 +100,7 @@ Definition client_of (s : store) : option client_state :=
     client / consensus state, 4 the store it leaves, 5 UpdateClient class, 6 the
     store after UpdateClient (unchanged after a rejected one), 7 Verify* class,
     8 Verify* changed the store, 9 no client state in the observed store. *)
-Definition cmp_step (guard : bool) (pre : store) (o : ostep) : list nat :=
+Definition cmp_step (pre : store) (o : ostep) : list nat :=
   match client_of pre with
   | None => [9%nat]
   | Some cs =>
@@ -125,25 +125,24 @@ Definition cmp_step (guard : bool) (pre : store) (o : ostep) : list nat :=
            | _ => if store_eqb pre store_after then [] else [6%nat]
            end)
       | OVerify now h proof_nil ack seq val decodes member v_class store_after =>
-          let r := verify_packet (fun _ => decodes) (fun _ _ _ _ _ _ => member) guard cs pre now h
+          let r := verify_packet (fun _ => decodes) (fun _ _ _ _ _ _ => member) cs pre now h
                                  (if proof_nil then None else Some []) ack ([], [], seq) val in
           (if Nat.eqb (oclass r) v_class then [] else [7%nat]) ++
           (if store_eqb pre store_after then [] else [8%nat])
       end
   end.
 
-Fixpoint cmp_steps (guard : bool) (i : nat) (pre : store) (l : list ostep) : list (nat * nat) :=
+Fixpoint cmp_steps (i : nat) (pre : store) (l : list ostep) : list (nat * nat) :=
   match l with
   | [] => []
-  | o :: l' => map (fun k => (i, k)) (cmp_step guard pre o) ++ cmp_steps guard (S i) (step_store o) l'
+  | o :: l' => map (fun k => (i, k)) (cmp_step pre o) ++ cmp_steps (S i) (step_store o) l'
   end.
 
 Fixpoint number {A} (i : nat) (l : list A) : list (nat * A) :=
   match l with [] => [] | x :: l' => (i, x) :: number (S i) l' end.
 
-(** [guard]: which variant of the delay gate the tree is compared with (see Model/Tendermint.v) *)
-Definition mismatches (guard : bool) (hs : list hist) : list (nat * (nat * nat)) :=
-  flat_map (fun ih => map (fun m => (fst ih, m)) (cmp_steps guard 0 (hs_init (snd ih)) (hs_steps (snd ih)))) (number 0 hs).
+Definition mismatches (hs : list hist) : list (nat * (nat * nat)) :=
+  flat_map (fun ih => map (fun m => (fst ih, m)) (cmp_steps 0 (hs_init (snd ih)) (hs_steps (snd ih)))) (number 0 hs).
 
 (** * Monitor: the property itself on the implementation's observed trace,
     written declaratively (full tallies instead of the early-exit loops, key-wise
